@@ -22,6 +22,7 @@ func (p *c08) ID() string { return "C08" }
 
 func (p *c08) Init(tier string, seed int64) {
 	p.tier, p.seed = tier, seed
+	poisonEvery = 1
 	maxD := p.pick(2, 3)
 	p.nEnum = 0
 	for d := 1; d <= maxD; d++ {
